@@ -210,13 +210,11 @@ def main():
     chunks = [srcs[i::32] for i in range(32)]
     nd = 0
     for r in pmap(diff_task, [dict(name='diff-%d' % i, srcs=c) for i, c in enumerate(chunks)], limit=900):
-        for v in r.get('violations', []):
-            rep.violation(v)
+        rep.absorb(r)
         nd += r.get('n', 0)
     nl = 0
     for r in pmap(layout_task, [dict(seed=rep.seed * 100 + i, lo=i, step=8) for i in range(8)], limit=900):
-        for v in r.get('violations', []):
-            rep.violation(v)
+        rep.absorb(r)
         nl += r.get('n', 0)
     rep.counts['evaluations'] += nd + nl
     rep.cov['aux_reference_tokenizer_strings'] = nd
